@@ -7,10 +7,10 @@ import (
 	"github.com/skx/evalfilter/v2/zzsv"
 )
 
-func init() { zzsv.Register("ZZ_Smoke", ZZ_Smoke) }
+func init() { zzsv.Register("ZZ_C00_Smoke", ZZ_C00_Smoke) }
 
-// ZZ_Smoke is the engine's end-to-end smoke test.
-func ZZ_Smoke(sv *zzsv.T) {
+// ZZ_C00_Smoke is the engine's end-to-end smoke test.
+func ZZ_C00_Smoke(sv *zzsv.T) {
 	a := sv.Int64("a")
 	b := sv.Int64("b")
 	e := New("if (a < b) { return a + b * 2; } return \"abc\"[a];")
